@@ -53,7 +53,7 @@ Proof.
 Qed.
 Lemma gap_proxy_guid : forall start gl p p', gap_proxy start gl p = Ok p' -> wp_guid p' = wp_guid p.
 Proof.
-  intros start gl p p' H. unfold gap_proxy in H. apply bind_ok in H as (ms & _ & H). inversion H; subst.
+  intros start gl p p' H. unfold gap_proxy in H. inversion H; subst.
   rewrite fold_raise_guid'. destruct (start <? ss_base gl); [apply raise_high_guid'|reflexivity].
 Qed.
 Lemma write_message_guid : forall reid p p' o, write_message reid p = Ok (p', o) -> wp_guid p' = wp_guid p.
@@ -77,7 +77,6 @@ Proof. intros. unfold hbf_proxy. destruct (_ <? _); [destruct p as [g a b c d e 
 Lemma acknack_proxy_guid : forall w st count rp rp' o, acknack_proxy w st count rp = Ok (rp', o) -> rp_guid rp' = rp_guid rp.
 Proof.
   intros w st count rp rp' o H. unfold acknack_proxy in H. destruct (_ && _); [|inversion H; reflexivity].
-  apply bind_ok in H as (acked & _ & H). apply bind_ok in H as (ms & _ & H).
   destruct (has_unsent _ _); [discriminate|]. apply bind_ok in H as (o' & _ & H). inversion H; reflexivity.
 Qed.
 Lemma nackfrag_proxy_guid : forall w s fs count rp rp' o, nackfrag_proxy w s fs count rp = Ok (rp', o) -> rp_guid rp' = rp_guid rp.
@@ -85,7 +84,7 @@ Proof.
   intros w s fs count rp rp' o H. unfold nackfrag_proxy in H. destruct (_ && _); [|inversion H; reflexivity].
   destruct (find_change w s).
   - apply bind_ok in H as (n & _ & H). apply bind_ok in H as (ms & _ & H). inversion H; reflexivity.
-  - apply bind_ok in H as (b & _ & H). inversion H; reflexivity.
+  - inversion H; reflexivity.
 Qed.
 
 (* -------------------------------------------------------------- containers *)
@@ -124,14 +123,16 @@ Qed.
 Lemma reader_data_others : forall src wid s r r' o, q (src ++ wid) = true ->
   reader_data src wid s r = Ok (r', o) -> wkeep (sr_proxies r') = wkeep (sr_proxies r).
 Proof.
-  intros src wid s r r' o Hq H. unfold reader_data in H. eapply with_proxies_others; [exact H|].
+  intros src wid s r r' o Hq H. unfold reader_data in H. destruct (s =? i64_max); [inversion H; reflexivity|].
+  eapply with_proxies_others; [exact H|].
   intros l' o' E. eapply upd_proxy_others; [|exact E|exact Hq].
   apply quiet_guid. intros p p'. apply on_data_proxy_guid.
 Qed.
 Lemma reader_frag_others : forall src wid f r r' o, q (src ++ wid) = true ->
   reader_frag src wid f r = Ok (r', o) -> wkeep (sr_proxies r') = wkeep (sr_proxies r).
 Proof.
-  intros src wid f r r' o Hq H. unfold reader_frag in H. destruct (fr_size f =? 0); [inversion H; reflexivity|].
+  intros src wid f r r' o Hq H. unfold reader_frag in H. destruct (_ || _); [inversion H; reflexivity|].
+  destruct (_ <? _); [inversion H; reflexivity|].
   eapply with_proxies_others; [exact H|].
   intros l' o' E. eapply upd_proxy_others; [|exact E|exact Hq].
   apply quiet_guid. intros p p'. apply on_frag_proxy_guid.
@@ -226,7 +227,9 @@ Proof.
   - (* Gap *) unfold on_readers in H1. apply bind_ok in H1 as ([l o2] & H1 & H2). inversion H2; subst. cbn [ps_readers ps_writers fst].
     f_equal. eapply (for_each_others _ _ (fun r => wkeep (speaks_for ps) (sr_proxies r))); [|exact H1].
     intros e e' o'. apply reader_gap_others. apply Q.
-  - (* Heartbeat *) unfold on_readers in H1. apply bind_ok in H1 as ([l o2] & H1 & H2). inversion H2; subst. cbn [ps_readers ps_writers fst].
+  - (* Heartbeat *) destruct (first <=? 0); [inversion H; subst; split; reflexivity|].
+    apply bind_ok in H as ([st1 o1] & H1 & H); inversion H; subst; cbn [fst snd]; split; [|reflexivity].
+    unfold on_readers in H1. apply bind_ok in H1 as ([l o2] & H1 & H2). inversion H2; subst. cbn [ps_readers ps_writers fst].
     f_equal. eapply (for_each_others _ _ (fun r => wkeep (speaks_for ps) (sr_proxies r))); [|exact H1].
     intros e e' o'. apply reader_hb_others. apply Q.
   - (* HeartbeatFrag *) unfold on_readers in H1. apply bind_ok in H1 as ([l o2] & H1 & H2). inversion H2; subst. cbn [ps_readers ps_writers fst].
